@@ -61,6 +61,9 @@ func (k c14Case) key() string {
 	if k.Limit {
 		sp += "/limit"
 	}
+	if k.Bound > 1 {
+		sp += fmt.Sprintf("/d%d", k.Bound)
+	}
 	return fmt.Sprintf("%s/%s/%s%s/%s", k.Proto, k.ReqMode, k.Client, sp, k.Handler)
 }
 
@@ -616,6 +619,18 @@ func c14Cases(thorough bool) []c14Case {
 	words := c14Words(maxLen)
 	handlers := c14Handlers(thorough)
 	var out []c14Case
+	if thorough {
+		// every pair of delays for the short programs against the quick handler subset
+		for _, p := range AllProtos {
+			for _, m := range []memhttp.ReqMode{memhttp.ReqEager, memhttp.ReqLazy} {
+				for _, w := range c14Words(3) {
+					for _, h := range c14Handlers(false) {
+						out = append(out, c14Case{Proto: p, ReqMode: m, Client: w, Handler: h, Bound: 2})
+					}
+				}
+			}
+		}
+	}
 	for _, p := range AllProtos {
 		for _, m := range []memhttp.ReqMode{memhttp.ReqEager, memhttp.ReqLazy} {
 			for _, w := range words {
@@ -701,7 +716,7 @@ func TestC14(t *testing.T) {
 		return
 	}
 	thorough := ev.Thorough()
-	c.Bound("preemption_bound", 1)
+	c.Bound("delay_bound", map[bool]string{false: "1", true: "1 for all scenarios, 2 for programs of length <= 3 against 16 handler programs"}[thorough])
 	if thorough {
 		c.Bound("max_client_program_length", 5)
 		c.Bound("handler_programs", 36)
